@@ -113,7 +113,20 @@ class C04(Spec):
         for _ in range(2500 if q else 80000):
             n = rng.randrange(0, 20)
             bs = [rng.choice([0, 1, 8, 10, 16, 18, 0x80, 0xFF, 5, rng.randrange(256)]) for _ in range(n)]
+            if rng.random() < 0.2:
+                # varint hazards: runs of 8..12 continuation octets (the longest legal varint has 10 octets) at a tag, value or
+                # length position, terminated or not
+                run = [rng.choice([0x80, 0xFF, 0x81]) for _ in range(rng.choice([8, 9, 10, 11, 12]))] + \
+                      rng.choice([[], [0], [1], [0x7F], [0x02, 7]])
+                at = rng.randrange(0, min(len(bs), 3) + 1)
+                bs = bs[:at] + run + bs[at:]
             L.append("4060 %d 0 %s" % (rng.randrange(1, 21), " ".join(map(str, bs))))
+        # ... and the raw varint primitives on the same hazards (ops 4010..4018)
+        for k in (1, 2, 9, 10, 11, 12, 13):
+            for fill in (0x80, 0xFF):
+                for tail in ([], [0], [1], [0x7F], [0x80]):
+                    for op in range(4010, 4019):
+                        L.append("%d %s" % (op, " ".join(map(str, [fill] * k + tail))))
         return L
 
     def canon(self, out):
@@ -151,6 +164,8 @@ class C04(Spec):
             cls = who + "_reader_panics"
             if who == "proto" and (o[0] == 3 or o[1:2] == [7]) and a[1] == 19:
                 cls = "proto_reader_unbounded_nested_list"   # zoo type 19 = SEQUENCE OF SEQUENCE OF (F17-3)
+            if op == 4015 and len(a) - 1 < 8:
+                cls = "proto_read_bit_vec_short_input"       # the public primitive on fewer than 8 octets (F17-6)
             return (cls, "%s reader panicked/crashed on arbitrary bytes: %s" % (who, out[:30]))
         return None
 
